@@ -55,6 +55,102 @@ impl<'de, 'a> Deserializer<'de> for D<'a> {
   }
 }
 
+
+// ---- a recording Serializer: what exactly is announced and emitted (the slice's own Serialize run
+// through the same recorder is the oracle); only sequences of u32 are supported ----
+impl serde::ser::Error for E {
+  fn custom<T: std::fmt::Display>(m: T) -> Self {
+    E(m.to_string())
+  }
+}
+#[derive(Debug, PartialEq, Clone)]
+pub struct Recorded {
+  announced: Option<usize>,
+  elems: Vec<u32>,
+  seqs_begun: usize,
+  ended: bool,
+}
+struct Rec<'a>(&'a mut Recorded);
+struct RecSeq<'a>(&'a mut Recorded);
+struct ElemRec<'a>(&'a mut Recorded);
+macro_rules! unsupported {
+  ($($f:ident($($t:ty),*) ;)*) => { $( fn $f(self, $(_: $t),*) -> Result<(), E> { Err(E("unsupported".into())) } )* };
+}
+impl<'a> serde::Serializer for ElemRec<'a> {
+  type Ok = ();
+  type Error = E;
+  type SerializeSeq = serde::ser::Impossible<(), E>;
+  type SerializeTuple = serde::ser::Impossible<(), E>;
+  type SerializeTupleStruct = serde::ser::Impossible<(), E>;
+  type SerializeTupleVariant = serde::ser::Impossible<(), E>;
+  type SerializeMap = serde::ser::Impossible<(), E>;
+  type SerializeStruct = serde::ser::Impossible<(), E>;
+  type SerializeStructVariant = serde::ser::Impossible<(), E>;
+  fn serialize_u32(self, v: u32) -> Result<(), E> {
+    self.0.elems.push(v);
+    Ok(())
+  }
+  unsupported! { serialize_bool(bool); serialize_i8(i8); serialize_i16(i16); serialize_i32(i32); serialize_i64(i64);
+    serialize_u8(u8); serialize_u16(u16); serialize_u64(u64); serialize_f32(f32); serialize_f64(f64);
+    serialize_char(char); serialize_str(&str); serialize_bytes(&[u8]); serialize_none(); serialize_unit();
+    serialize_unit_struct(&'static str); serialize_unit_variant(&'static str, u32, &'static str); }
+  fn serialize_some<T: ?Sized + serde::Serialize>(self, _: &T) -> Result<(), E> { Err(E("unsupported".into())) }
+  fn serialize_newtype_struct<T: ?Sized + serde::Serialize>(self, _: &'static str, _: &T) -> Result<(), E> { Err(E("unsupported".into())) }
+  fn serialize_newtype_variant<T: ?Sized + serde::Serialize>(self, _: &'static str, _: u32, _: &'static str, _: &T) -> Result<(), E> { Err(E("unsupported".into())) }
+  fn serialize_seq(self, _: Option<usize>) -> Result<Self::SerializeSeq, E> { Err(E("unsupported".into())) }
+  fn serialize_tuple(self, _: usize) -> Result<Self::SerializeTuple, E> { Err(E("unsupported".into())) }
+  fn serialize_tuple_struct(self, _: &'static str, _: usize) -> Result<Self::SerializeTupleStruct, E> { Err(E("unsupported".into())) }
+  fn serialize_tuple_variant(self, _: &'static str, _: u32, _: &'static str, _: usize) -> Result<Self::SerializeTupleVariant, E> { Err(E("unsupported".into())) }
+  fn serialize_map(self, _: Option<usize>) -> Result<Self::SerializeMap, E> { Err(E("unsupported".into())) }
+  fn serialize_struct(self, _: &'static str, _: usize) -> Result<Self::SerializeStruct, E> { Err(E("unsupported".into())) }
+  fn serialize_struct_variant(self, _: &'static str, _: u32, _: &'static str, _: usize) -> Result<Self::SerializeStructVariant, E> { Err(E("unsupported".into())) }
+}
+impl<'a> serde::ser::SerializeSeq for RecSeq<'a> {
+  type Ok = ();
+  type Error = E;
+  fn serialize_element<T: ?Sized + serde::Serialize>(&mut self, v: &T) -> Result<(), E> {
+    v.serialize(ElemRec(self.0))
+  }
+  fn end(self) -> Result<(), E> {
+    self.0.ended = true;
+    Ok(())
+  }
+}
+impl<'a> serde::Serializer for Rec<'a> {
+  type Ok = ();
+  type Error = E;
+  type SerializeSeq = RecSeq<'a>;
+  type SerializeTuple = serde::ser::Impossible<(), E>;
+  type SerializeTupleStruct = serde::ser::Impossible<(), E>;
+  type SerializeTupleVariant = serde::ser::Impossible<(), E>;
+  type SerializeMap = serde::ser::Impossible<(), E>;
+  type SerializeStruct = serde::ser::Impossible<(), E>;
+  type SerializeStructVariant = serde::ser::Impossible<(), E>;
+  fn serialize_seq(self, len: Option<usize>) -> Result<RecSeq<'a>, E> {
+    self.0.announced = len;
+    self.0.seqs_begun += 1;
+    Ok(RecSeq(self.0))
+  }
+  unsupported! { serialize_bool(bool); serialize_i8(i8); serialize_i16(i16); serialize_i32(i32); serialize_i64(i64);
+    serialize_u8(u8); serialize_u16(u16); serialize_u32(u32); serialize_u64(u64); serialize_f32(f32); serialize_f64(f64);
+    serialize_char(char); serialize_str(&str); serialize_bytes(&[u8]); serialize_none(); serialize_unit();
+    serialize_unit_struct(&'static str); serialize_unit_variant(&'static str, u32, &'static str); }
+  fn serialize_some<T: ?Sized + serde::Serialize>(self, _: &T) -> Result<(), E> { Err(E("unsupported".into())) }
+  fn serialize_newtype_struct<T: ?Sized + serde::Serialize>(self, _: &'static str, _: &T) -> Result<(), E> { Err(E("unsupported".into())) }
+  fn serialize_newtype_variant<T: ?Sized + serde::Serialize>(self, _: &'static str, _: u32, _: &'static str, _: &T) -> Result<(), E> { Err(E("unsupported".into())) }
+  fn serialize_tuple(self, _: usize) -> Result<Self::SerializeTuple, E> { Err(E("unsupported".into())) }
+  fn serialize_tuple_struct(self, _: &'static str, _: usize) -> Result<Self::SerializeTupleStruct, E> { Err(E("unsupported".into())) }
+  fn serialize_tuple_variant(self, _: &'static str, _: u32, _: &'static str, _: usize) -> Result<Self::SerializeTupleVariant, E> { Err(E("unsupported".into())) }
+  fn serialize_map(self, _: Option<usize>) -> Result<Self::SerializeMap, E> { Err(E("unsupported".into())) }
+  fn serialize_struct(self, _: &'static str, _: usize) -> Result<Self::SerializeStruct, E> { Err(E("unsupported".into())) }
+  fn serialize_struct_variant(self, _: &'static str, _: u32, _: &'static str, _: usize) -> Result<Self::SerializeStructVariant, E> { Err(E("unsupported".into())) }
+}
+fn record<T: serde::Serialize + ?Sized>(v: &T) -> (Recorded, bool) {
+  let mut r = Recorded { announced: None, elems: vec![], seqs_begun: 0, ended: false };
+  let ok = v.serialize(Rec(&mut r)).is_ok();
+  (r, ok)
+}
+
 fn tracked<R>(f: impl FnOnce() -> R) -> (R, usize) {
   // bytes requested from the allocator by the call (tracked allocations only)
   let _ = alloc::take_events();
@@ -88,6 +184,35 @@ pub fn run() {
       bad += 1;
     }
     println!("SER len={} ok={}", items.len(), ok);
+    // what is announced and emitted, for several storage states with the same contents (spare capacity,
+    // exact capacity, grown by pushes, shrunk after pops): one sequence, the slice's announcement, the
+    // elements in order, ended
+    let mut states: Vec<MiniVec<u32>> = vec![];
+    states.push(items.iter().cloned().collect());
+    let mut a1: MiniVec<u32> = MiniVec::with_capacity(items.len() + 7);
+    a1.extend(items.iter().cloned());
+    states.push(a1);
+    let mut a2: MiniVec<u32> = MiniVec::new();
+    for x in items.iter() {
+      a2.push(*x);
+    }
+    states.push(a2);
+    let mut a3: MiniVec<u32> = items.iter().cloned().chain(0..5).collect();
+    a3.truncate(items.len());
+    states.push(a3);
+    let mut a4: MiniVec<u32> = items.iter().cloned().collect();
+    a4.shrink_to_fit();
+    states.push(a4);
+    let (oracle, ook) = record(&items[..]);
+    for (k, st) in states.iter().enumerate() {
+      let (got, gok) = record(st);
+      let same = gok == ook && got == oracle && got.seqs_begun == 1 && got.ended;
+      n += 1;
+      if !same {
+        bad += 1;
+      }
+      println!("SERREC len={} state={} cap={} announced={:?} emitted={} ok={}", items.len(), k, st.capacity(), got.announced, got.elems.len(), same);
+    }
     let back: MiniVec<u32> = serde_json::from_str(&a).unwrap();
     let ok2 = back[..] == items[..];
     n += 1;
